@@ -738,7 +738,14 @@ def run(ctx, rep):
         coll = strip(e.forall)
         fmtv = strip(lp.classify(e.path)[1])
         c1, p1 = L.loop_element(fmtv)
-        c2, p2 = L.loop_element(H.peel_views(e.args[1]))     # `&sbom.data` / `sbom.data.as_slice()`: the same bytes
+        data = e.args[1] if e.args is not None and len(e.args) > 1 else None
+        if data is None:
+            # `File::create(p).and_then(|mut f| f.write_all(d))` / the OpenOptions spelling of it: the bytes are handed over
+            # in a closure, where the library does not attach them to the create effect (seed round 5, twin of C05-5)
+            from .C05_helpers import written_data, WRITE_DATA
+            from .lib.effects import Effects as _Eff
+            data, _dw = written_data(e, _Eff(prog, sl, vocab=WRITE_DATA).expand(rs, 'must'))
+        c2, p2 = L.loop_element(H.peel_views(data)) if data is not None else (None, None)     # `&sbom.data` / `sbom.data.as_slice()`: the same bytes
         w_ok = coll[0] == 'param' and coll[2] == 2 and c1 == coll and p1 == ('format',) and c2 == coll and p2 == ('data',)
     rep.check(w_ok, 'R4', 'replace_sboms/write-each', '%s:%d' % (rs.file, rs.line), 'every given SBOM is written to the path of its own format with its own data',
               'SBOM write loop does not write (format, data) of each element')
